@@ -89,20 +89,23 @@ Sound    == IsCase => \A cached \in BOOLEAN : Accept(S, Comm, votes, cached, 0, 
 Complete == IsCase => (Quorum(S, Comm, votes, 0, Req) /\ NoForeign(S, Comm, votes, 0)
                          => \A cached \in BOOLEAN : Accept(S, Comm, votes, cached, 0, Req))
 
-\* every certificate the counter can emit from the vote list taken as a pool is accepted and is a quorum
-Adm == [k \in 1..Len(votes) |-> Admit(S, votes, k, HH)]
-EligIdx(st, h) == {j \in 1..Len(votes) : /\ Adm[j] /\ votes[j].sig # "forged" /\ votes[j].round = 0 /\ votes[j].step = st
-                                         /\ votes[j].parent = 0 /\ votes[j].hash = h /\ votes[j].voter \in ApprovedOf(S, Comm)}
-Certs(st, h) == {I \in SUBSET EligIdx(st, h) : /\ Cardinality(I) = EmitSize(Req)
-                                              /\ \A i, j \in I : i # j => votes[i].voter # votes[j].voter}
+\* the vote list taken as a pool: every certificate the counter can emit (any EmitSize distinct eligible admitted
+\* voters of one hash) is accepted under both call shapes and is a quorum without foreign signatures, and the
+\* counter emits exactly when such a certificate exists
 AsVotes(I) == LET s == SortAsc(I) IN [i \in 1..Len(s) |-> votes[s[i]]]
-CounterSound == IsCase => \A st \in Steps, h \in {0, 1} : \A I \in Certs(st, h) :
-                    /\ CountEmits(S, Comm, votes, Adm, st, h, Req)
-                    /\ \A cached \in BOOLEAN : Accept(S, Comm, AsVotes(I), cached, h, Req)
-                    /\ Quorum(S, Comm, AsVotes(I), h, Req) /\ NoForeign(S, Comm, AsVotes(I), h)
-\* and the counter emits whenever the pool holds a quorum for some hash
-CounterLive == IsCase => \A st \in Steps, h \in {0, 1} :
-                    CountEmits(S, Comm, votes, Adm, st, h, Req) <=> Certs(st, h) # {}
+Counter == IsCase =>
+    LET adm == [k \in 1..Len(votes) |-> Admit(S, votes, k, HH)]
+        A   == ApprovedOf(S, Comm)
+        req == Req
+    IN \A st \in Steps, h \in {0, 1} :
+         LET idx   == {j \in 1..Len(votes) : /\ adm[j] /\ votes[j].sig # "forged" /\ votes[j].round = 0 /\ votes[j].step = st
+                                             /\ votes[j].parent = 0 /\ votes[j].hash = h /\ votes[j].voter \in A}
+             certs == {I \in SUBSET idx : /\ Cardinality(I) = EmitSize(req)
+                                          /\ \A i, j \in I : i # j => votes[i].voter # votes[j].voter}
+         IN /\ CountEmitsA(A, votes, adm, st, h, req) <=> certs # {}
+            /\ \A I \in certs : LET cv == AsVotes(I) IN
+                   /\ AcceptA(A, cv, FALSE, h, req) /\ AcceptA(A, cv, TRUE, h, req)
+                   /\ QuorumA(A, cv, h, req) /\ NoForeignA(A, cv, h)
 
 TypeOK == /\ stage \in {"start", "shape", "case"}
           /\ WellFormedCommittee(S, Comm, FALSE) /\ Cnt(S) <= 8
